@@ -102,10 +102,13 @@ def monitor_cases(rng, tier, stats):
         # complex operands (complex numerator; the positive divisor merely STORED as complex): the projections of the numerator and of the
         # operator must use the same (unconjugated) bilinear pairing
         cplx = (c % 6 == 1) and not heavy
+        if cplx and c == 7:
+            # fixed witness of the known finding C13/complex-gmres-local-solve: local systems of size >= max_full (500) go through the GMRES
+            # local solver, whose Arnoldi process uses unconjugated dot products — for complex data the quotient is wrong by O(1)
+            d, N, mode, tol = 3, [9, 10, 6], "fn", 2.3e-5
         label = "%s/d%d%s%s" % (mode, d, "/high-rank" if heavy else "", "/c128" if cplx else "")
 
-        def impl(N=N, mode=mode, tol=tol, seed=seed, box=box, d=d, c=c, heavy=heavy, cplx=cplx):
-            tn.manual_seed(seed); np.random.seed(seed % (2 ** 32))
+        def body(N=N, mode=mode, tol=tol, seed=seed, box=box, d=d, c=c, heavy=heavy, cplx=cplx):
             z = torchtt.randn(N, [1] + [3 if heavy else rng.randint(1, 3)] * (d - 1) + [1])
             y = (z * z + 1.0).round(1e-13)
             x = torchtt.randn(N, [1] + [2 if heavy else rng.randint(1, 4)] * (d - 1) + [1])
@@ -150,14 +153,32 @@ def monitor_cases(rng, tier, stats):
             stats.append((mode, tol, res / tol))
             return "ok"
 
-        def oracle(box=box, tol=tol, label=label):
+        def impl(body=body, seed=seed, box=box):
+            tn.manual_seed(seed); np.random.seed(seed % (2 ** 32))
+            import torchtt._division as _D
+            _orig = _D.gmres_restart
+            box["gmres"] = 0
+
+            def _counting(*a, **k):
+                box["gmres"] += 1
+                return _orig(*a, **k)
+            _D.gmres_restart = _counting
+            try:
+                return body()
+            finally:
+                _D.gmres_restart = _orig
+
+        def oracle(box=box, tol=tol, label=label, cplx=cplx):
             if "shape" in box:
                 return box["shape"]
             r = box.get("ratio")
             if r is None:
                 return "division raised"
             if not (r <= C_DIV or r * tol <= 1e-11):      # NaN-safe
-                return "||q*y - x||/||x|| = %.3g*tol exceeds %g*tol (tol=%.2g, %s)" % (r, C_DIV, tol, label)
+                msg = "||q*y - x||/||x|| = %.3g*tol exceeds %g*tol (tol=%.2g, %s)" % (r, C_DIV, tol, label)
+                if cplx and box.get("gmres", 0) > 0:
+                    return "[finding:C13/complex-gmres-local-solve] " + msg + " [%d GMRES local solves on complex data]" % box["gmres"]
+                return msg
             return None
         cases.append(Case(None, impl, oracle, "monitor/" + label, True, desc="divide %s N=%s tol=%.2g seed=%d" % (mode, N, tol, seed)))
     return cases
